@@ -15,6 +15,7 @@ import (
 	"github.com/ChainSafe/sygma-relayer/chains/evm/listener/eventHandlers"
 	"github.com/ChainSafe/sygma-relayer/comm"
 	"github.com/ChainSafe/sygma-relayer/comm/p2p"
+	"github.com/ChainSafe/sygma-relayer/keyshare"
 	"github.com/ChainSafe/sygma-relayer/topology"
 	"github.com/ChainSafe/sygma-relayer/tss"
 	"github.com/ChainSafe/sygma-relayer/tss/message"
@@ -248,6 +249,131 @@ func c10handler(a []string) string {
 	return r + ";" + cnt.String()
 }
 
+// C10.midrun <kind>   (kinds that must hold the lock while their protocol runs) the process is started for real and the
+//
+//	lock is watched for 300 ms from the moment the process has subscribed to its message type, i.e. while the protocol
+//	is in its rounds (ECDSA keygen is generating safe primes then, for seconds). => R=<1 held all the time | 0 seen free>
+//	The session is NOT ended (ending a run in that phase is the known finding C10-run-stuck-on-outchn): the op is the
+//	last one of a run, the driver exits right after it.
+func c10midrun(a []string) string {
+	kind := a[0]
+	w := newC10World(2, !strings.HasSuffix(kind, "keygen"))
+	nd := w.nodes[0]
+	sid := w.sidWithCoordinator("s", 1)
+	proc, cnt, ok := w.mk(kind, nd, sid, 1)
+	if !ok {
+		return "ctorerr"
+	}
+	go func() {
+		_ = nd.coord.Execute(context.Background(), []tss.TssProcess{proc}, make(chan interface{}, 4))
+	}()
+	ghost := w.nodes[1].ledger
+	if !waitUntil(c9wait, func() bool { return nd.ledger.inner.VerifLiveSubscriptions(sid) >= 3 }) {
+		return "hang"
+	}
+	b, _ := message.MarshalStartMessage(w.startParams(kind, sid))
+	_ = ghost.inner.Broadcast(peer.IDSlice{w.ids[0]}, b, comm.TssStartMsg, sid)
+	if !waitUntil(c9wait, func() bool { return len(nd.ledger.inner.GetSubscribers(sid, c10msgType(kind))) > 0 }) {
+		return "hang"
+	}
+	free := waitUntil(300*time.Millisecond, func() bool { return cnt.heldNow() == 0 })
+	if free {
+		return "R=0"
+	}
+	return "R=1"
+}
+
+// C10.multi <kind+kind+…> <refused|silent|gto|cancel|precancel>   ONE session made of several processes (Execute takes an
+//
+//	array), each with a key-share store of its own. => <ret>;<per process L=…>|…
+func c10multi(a []string) string {
+	kinds, oc := strings.Split(a[0], "+"), a[1]
+	w := newC10World(1, true)
+	defer w.close()
+	nd := w.nodes[0]
+	sid := w.sidWithCoordinator("s", 1)
+	var blocker *recProc
+	bctx, bcancel := context.WithCancel(context.Background())
+	defer bcancel()
+	blockRet := make(chan error, 1)
+	if oc == "refused" {
+		blocker = newRecProc(sid, []peer.ID{w.ids[1]}, nd.ledger, newSidStats())
+		go func() { blockRet <- nd.coord.Execute(bctx, []tss.TssProcess{blocker}, make(chan interface{}, 1)) }()
+		if !waitUntil(c9wait, func() bool { return nd.coord.VerifPending(sid) && nd.ledger.inner.VerifLiveSubscriptions(sid) >= 3 }) {
+			return "hang"
+		}
+	}
+	procs := []tss.TssProcess{}
+	cnts := []*lockCounter{}
+	for i, k := range kinds {
+		// a store of its own for every process (the fixture share of relayer 0 behind a fresh counting lock)
+		ep, fp := fmt.Sprintf("%s/m%d.keyshare", w.dir, i), fmt.Sprintf("%s/m%d-frost.keyshare", w.dir, i)
+		copyFile(w.dir+"/0.keyshare", ep)
+		copyFile(w.dir+"/0-frost.keyshare", fp)
+		one := &c10node{host: nd.host, ledger: nd.ledger,
+			ec: &cntECDSA{inner: keyshare.NewECDSAKeyshareStore(ep), c: &lockCounter{}},
+			fr: &cntFrost{inner: keyshare.NewFrostKeyshareStore(fp), c: &lockCounter{}}}
+		p, c, ok := w.mk(k, one, sid, 1)
+		if !ok {
+			return "ctorerr"
+		}
+		procs = append(procs, p)
+		cnts = append(cnts, c)
+	}
+	switch oc {
+	case "silent":
+		nd.coord.CoordinatorTimeout = 25 * time.Millisecond
+	case "gto":
+		nd.coord.TssTimeout = 25 * time.Millisecond
+	}
+	ctx, cancel := context.WithCancel(context.Background())
+	defer cancel()
+	if oc == "precancel" {
+		cancel()
+	}
+	subX, _, _ := nd.ledger.counts(sid)
+	ret := make(chan error, 1)
+	go func() { ret <- nd.coord.Execute(ctx, procs, make(chan interface{}, 4)) }()
+	if oc == "cancel" {
+		waitUntil(c9wait, func() bool { return nd.ledger.inner.VerifLiveSubscriptions(sid) >= 3 })
+		cancel()
+	}
+	if oc == "silent" && strings.HasSuffix(kinds[0], "signing") {
+		// (a retryable first process: the silent coordinator is excluded, this relayer elects itself, nobody is ready)
+		waitUntil(c9wait, func() bool { return len(nd.ledger.inner.GetSubscribers(sid, comm.TssReadyMsg)) > 0 })
+		cancel()
+	}
+	r := "hang"
+	select {
+	case err := <-ret:
+		n, _, _ := nd.ledger.counts(sid)
+		switch {
+		case err == nil:
+			r = "ok"
+		case refusedBy(err, n-subX):
+			r = "refused"
+		default:
+			r = "err"
+		}
+	case <-time.After(c9wait + 8*time.Second):
+	}
+	if blocker != nil {
+		bcancel()
+		select {
+		case <-blockRet:
+		case <-time.After(c9wait):
+			r = "hang"
+		}
+	}
+	out := []string{}
+	for _, c := range cnts {
+		out = append(out, c.String())
+	}
+	return r + ";" + strings.Join(out, "|")
+}
+
 func init() {
 	ops["C10.handler"] = c10handler
+	ops["C10.midrun"] = c10midrun
+	ops["C10.multi"] = c10multi
 }
